@@ -125,7 +125,21 @@ func main() {
 		os.Exit(0)
 	}
 	if *variant == "inlined" {
-		inl, rem, err := pr.InlineHelpers(nil)
+		var noInline map[string]bool
+		if only := os.Getenv("GCLVERIFY_INLINE_ONLY"); only != "" {
+			// development: inline just the named helpers
+			noInline = map[string]bool{}
+			want := map[string]bool{}
+			for _, k := range strings.Split(only, ",") {
+				want[k] = true
+			}
+			for _, f := range pr.Funcs {
+				if !want[pr.Key(f)] {
+					noInline[pr.Key(f)] = true
+				}
+			}
+		}
+		inl, rem, err := pr.InlineHelpers(noInline)
 		if err != nil {
 			fmt.Printf("ERROR inlining failed: %v\n", err)
 			os.Exit(2)
